@@ -118,7 +118,7 @@ func init() {
 			}
 		}})
 
-	register(&Obligation{ID: "C11.c", Props: []string{"C11"}, Template: "who-may+must-precede",
+	register(&Obligation{ID: "C11.c", Props: []string{"C11", "C04"}, Template: "who-may+must-precede",
 		Desc: "Watermarker.AdvanceTime is called only in sendOperatorEvent, for each keyed event before it is routed; CurrentWatermark is read only there, when the watermark placeholder is sent on the same goroutine; the stamped watermark is what is broadcast",
 		Run: func(r *Run) {
 			adv := r.P.FuncObj("workers/wmark", "(*Watermarker).AdvanceTime")
